@@ -232,6 +232,17 @@ Proof.
   split; [exact H2|]. split; [|apply Hlen, Hin]. destruct s; [discriminate|]. unfold blen. cbn [length]. lia.
 Qed.
 
+(* a witness without any valid signature exhibits no signature asset: its table is the
+   signature-free one (starting point for the uniqueness-of-dissatisfaction property e) *)
+Lemma assets_of_sigfree (e : env) (ke : keyenv) (W : wit) :
+  (forall k sg, In sg W -> e_sigok e (kb ke k) sg = true -> sg = []) ->
+  forall k, a_sig (assets_of e ke W) k = None.
+Proof.
+  intros Hf k. cbn [assets_of a_sig]. unfold wfind_sig. destruct (find _ W) as [y|] eqn:Ef; [|reflexivity].
+  apply find_some in Ef. destruct Ef as [Hy Hp]. apply andb_prop in Hp. destruct Hp as [Hn Ho].
+  rewrite (Hf k y Hy Ho) in Hn. discriminate.
+Qed.
+
 (* (b), closed: a canonical witness is an entry of the table of its own assets *)
 Theorem Rcan_in_table (e : env) (ke : keyenv) (m : ms) (s : bool) (w : wit) (v : bytes) :
   (forall kbs, e_sigok e kbs [] = false) -> (forall ks, length (ksort ke ks) = length ks) ->
